@@ -269,7 +269,7 @@ def run_history(rec, case):
                       'after the session ended')
                 except KeyError:
                     pass
-        if rec.evaluations % 23 == 0:
+        if rec.evaluations % 23 == 1:
             rec.sample({'config': desc, 'sessions': len(R.S),
                         'ends': sorted(set(dead_reason.values())),
                         'history_tail': R.witness(12)})
